@@ -183,3 +183,16 @@ pub fn norm_loc(s: &str) -> String {
     }
     out
 }
+
+static CLEANUPS: std::sync::Mutex<Vec<std::path::PathBuf>> = std::sync::Mutex::new(Vec::new());
+
+/// Directory to remove when the process finishes (for fixtures held in statics).
+pub fn register_cleanup(p: std::path::PathBuf) {
+    CLEANUPS.lock().unwrap().push(p);
+}
+
+pub fn run_cleanups() {
+    for p in CLEANUPS.lock().unwrap().drain(..) {
+        let _ = std::fs::remove_dir_all(p);
+    }
+}
